@@ -30,6 +30,26 @@ QUICK = dict(gen=1500, exhaustive_len=5)
 THOROUGH = dict(gen=50000, exhaustive_len=6)
 INF = 2147483647
 
+SOURCE_IMPORTS = ['ScalesModel.Model.Watermark']
+_RELEASE_VARS = {'self.state == ChannelState.Closed': 'pc', 'sink.state == ChannelState.Closed': 'sc', 'any(self._waiters)': 'hw', 'self._current_size': 'size', 'self._min_size': 'mn'}
+# decision logic translated from the current source on every run (harness/pytrans.py); each obligation states that
+# the hand-written model function is the translated decision applied to the model state, for every state
+SOURCE_SITES = [
+    dict(name='genReleaseBranch', file='scales/pool/watermark.py', func='WatermarkPoolSink._Release', kind='branch',
+         marker='self.state == ChannelState.Closed', varmap=_RELEASE_VARS,
+         params=['pc : Bool', 'sc : Bool', 'hw : Bool', 'size', 'mn'],
+         obligation='open Scales.Watermark\ntheorem genReleaseBranch_eq (cfg : Cfg) (s0 : St) (sid : Nat) :\n    let s := s0.emit (.rel sid)\n    release cfg s0 sid =\n      (match genReleaseBranch (decide (s.pstate = .closed)) (!(s.alive sid)) (!s.waiters.isEmpty) s.size cfg.min with\n       | 0 => discard { s with size := s.size - 1 } sid\n       | 1 => closePool { s with size := s.size - 1 }\n       | 2 => { s with tasks := s.tasks ++ [sid] }\n       | 3 => { s with cache := s.cache ++ [sid] }\n       | _ => discard { s with size := s.size - 1 } sid) := by\n  intro s\n  unfold release genReleaseBranch\n  by_cases h1 : s.pstate = .closed <;> by_cases h2 : s.alive sid <;> by_cases h3 : s.waiters.isEmpty <;>\n    by_cases h4 : s.size ≤ cfg.min <;> simp [s, h1, h2, h3, h4] at * <;> simp_all <;> omega\n'),
+    dict(name='genReleaseSize', file='scales/pool/watermark.py', func='WatermarkPoolSink._Release', kind='after',
+         marker=('do_close = False', 'self._varz.size'), var='self._current_size', varmap=_RELEASE_VARS,
+         params=['pc : Bool', 'sc : Bool', 'hw : Bool', 'size', 'mn'],
+         obligation='theorem failWaiters_size (s : St) (l : List Nat) : (failWaiters s l).size = s.size := by\n  induction l generalizing s with\n  | nil => rfl\n  | cons c cs ih => unfold failWaiters; split <;> simp [ih, St.emit]\ntheorem foldl_discard_size (l : List Nat) (s : St) : (l.foldl Scales.Watermark.discard s).size = s.size := by\n  induction l generalizing s with\n  | nil => rfl\n  | cons c cs ih => simp [List.foldl, ih, Scales.Watermark.discard, St.emit]\ntheorem foldl_discard_waiters (l : List Nat) (s : St) : (l.foldl Scales.Watermark.discard s).waiters = s.waiters := by\n  induction l generalizing s with\n  | nil => rfl\n  | cons c cs ih => simp [List.foldl, ih, Scales.Watermark.discard, St.emit]\ntheorem closePool_size (s : St) : (closePool s).size = s.size := by\n  simp [closePool, failWaiters_size, foldl_discard_size]\ntheorem genReleaseSize_eq (cfg : Cfg) (s0 : St) (sid : Nat) :\n    (release cfg s0 sid).size =\n      (genReleaseSize (decide ((s0.emit (.rel sid)).pstate = .closed)) (!((s0.emit (.rel sid)).alive sid))\n        (!s0.waiters.isEmpty) s0.size cfg.min).toNat := by\n  unfold release genReleaseSize\n  have e0 : (s0.emit (.rel sid)).pstate = s0.pstate := rfl\n  have e1 : (s0.emit (.rel sid)).size = s0.size := rfl\n  have e2 : (s0.emit (.rel sid)).waiters = s0.waiters := rfl\n  generalize hal : (s0.emit (.rel sid)).alive sid = al\n  generalize hs : s0.emit (.rel sid) = s at *\n  by_cases h1 : s.pstate = .closed\n  · simp [h1, Scales.Watermark.discard, St.emit, ← e1]\n  · cases al with\n    | false => simp [h1, hal, closePool_size, ← e1]\n    | true =>\n      by_cases h3 : s.waiters.isEmpty = false\n      · simp [h1, hal, h3, ← e2, ← e1]\n      · by_cases h4 : s.size ≤ cfg.min\n        · simp [h1, hal, h3, h4, ← e1, ← e2]\n        · simp [h1, hal, h3, h4, ← e1, ← e2, Scales.Watermark.discard, St.emit]\n'),
+    dict(name='genGetBranch', file='scales/pool/watermark.py', func='WatermarkPoolSink._Get', kind='branch',
+         marker='cached',
+         varmap={'cached': 'cached', 'self._current_size': 'size', 'self._max_size': 'mx',
+                 'len(self._waiters)': 'nw', 'self._max_queue_size': 'mq'},
+         params=['cached : Bool', 'size', 'mx', 'nw', 'mq'],
+         obligation="theorem genGetBranch_eq (cfg : Cfg) (s0 : St) (ok : Bool) :\n    (Scales.Watermark.get cfg s0 ok).2 =\n      (match genGetBranch (dequeue s0 s0.cache).2.isSome (dequeue s0 s0.cache).1.size cfg.max\n              (dequeue s0 s0.cache).1.waiters.length cfg.maxq with\n       | 0 => .sink ((dequeue s0 s0.cache).2.getD 0) false\n       | 1 => .sink (dequeue s0 s0.cache).1.view.sinks.length true\n       | 2 => .fail\n       | _ => .queue) := by\n  unfold Scales.Watermark.get genGetBranch\n  rcases h : dequeue s0 s0.cache with ⟨s, o⟩\n  cases o with\n  | some sid => simp\n  | none =>\n    by_cases h1 : s.size < cfg.max\n    · have h1' : (s.size : Int) < cfg.max := by omega\n      simp [h1, h1']\n    · have h1' : ¬ (s.size : Int) < cfg.max := by omega\n      by_cases h2 : s.waiters.length + 1 > cfg.maxq\n      · have h2' : ((s.waiters.length : Int) + 1) > cfg.maxq := by omega\n        simp [h1, h1', h2, h2']\n      · have h2' : ¬ ((s.waiters.length : Int) + 1) > cfg.maxq := by omega\n        simp [h1, h1', h2, h2']\n"),
+]
 TRUSTED = ['gevent starts spawned greenlets in spawn order (step mode replaces gevent.spawn inside '
            'scales.pool.watermark by a FIFO the harness drains one task at a time; hub mode uses the real hub)',
            'mock connections: Open() either returns a completed result or a pending AsyncResult that the harness '
